@@ -75,6 +75,17 @@ Theorem aiw_initial_refuted : exists w0 w_min w_max : R,
   ~ (w_min <= iter_sched (fun t _ => aiw_written w_min w_max [true]) 0 w0 <= w_max).
 Proof. exists (7 / 10), (8 / 10), (9 / 10). simpl. repeat split; try lra; intros [H _]; lra. Qed.
 
+(* The w_min setter does not compare with w_max, so an inverted (empty) range is accepted
+   (AIWPSO(hyperparams={'w_min': 0.95}) with the default w_max = 0.9): the hypothesis w_min <= w_max of
+   aiw_range is necessary. *)
+Theorem aiw_inverted_refuted : exists n_agents p w_max w_min : R,
+  0 <= w_min /\ 0 <= w_max /\ 0 <= p <= n_agents /\ 0 < n_agents /\
+  ~ (w_min <= aiwpso_w_next n_agents p w_max w_min <= w_max).
+Proof.
+  exists 1, 0, (9 / 10), (95 / 100).
+  repeat split; try lra; unfold aiwpso_w_next; intros [_ H]; lra.
+Qed.
+
 (* ================================================================== IHS: PAR in [PAR_min, PAR_max] *)
 
 Theorem ihs_par_range : forall PAR_max PAR_min n_it t : R,
